@@ -399,7 +399,10 @@ def hasHandlers {V} (hs : List (Handler V)) : Bool := hs.any matchesResource
 
 -- ---------------------------------------------------------------------------------------------
 -- processing.process_resource_causes, as far as "is anything done to this object" goes
--- (consistency pre-proven: `consistency_time is None`; the patch starts empty)
+-- (consistency pre-proven: `consistency_time is None`). The cycle's patch starts from
+-- `memory.remaining_patch`: the transformation functions of an earlier cycle whose JSON-patch was
+-- rejected (HTTP 422). Since /repo 1c8f3dd these are the *handlers'* functions only (the framework's
+-- own finalizer edits are dropped from what is carried); `Obj.carried` says whether there are any.
 
 structure Registry (V : Type) where
   watching : List (Handler V)
@@ -417,8 +420,10 @@ structure Obj where
   ongoing : Bool          -- finalizers.is_deletion_ongoing(body)
   blocked : Bool          -- finalizers.is_deletion_blocked(body, finalizer): own finalizer present
   noDelays : Bool         -- `not delays` at the end of the cycle (no handler/daemon asked to wait)
+  carried : Bool          -- `bool(memory.remaining_patch)`: `patch_initially_empty = not patch` is false
 
 inductive Effect where
+  | carried                              -- the cycle's patch starts with an earlier cycle's rejected fns
   | invokeWatching (ids : List String)   -- on.event handlers run (their results go to patch.status)
   | spawn (ids : List String)            -- daemons/timers matched for spawning
   | addFinalizer                         -- patch.fns += block_deletion
@@ -426,8 +431,11 @@ inductive Effect where
   | handle (ids : List String)           -- process_changing_cause: handlers, progress & diff-base annotations
   deriving DecidableEq, Repr
 
-/-- an effect by which the framework itself writes to the object (finalizer, annotations) -/
+/-- an effect by which the object is written to in this cycle: the framework's finalizer and
+    annotations, and the re-sent transformations of an earlier cycle. (on.event results and daemons
+    write only when such a handler matched: `invokeWatching`/`spawn` name the handlers.) -/
 def Effect.isFrameworkWrite : Effect → Bool
+  | .carried => true
   | .addFinalizer => true
   | .removeFinalizer => true
   | .handle _ => true
@@ -462,6 +470,14 @@ structure ReleaseAtoms where
   delays : Bool          -- truthiness of `delays`
 def releaseCore (a : ReleaseAtoms) : Bool := !a.deleted && a.ongoing && a.blocked && !a.delays
 
+/-- `consistency_is_achieved = consistency_is_achieved and patch_initially_empty` followed by
+    `if consistency_is_required and not consistency_is_achieved: return …` (before the handling) -/
+structure ExitAtoms where
+  required : Bool        -- consistency_is_required = changing_cause is not None
+  achievedBefore : Bool  -- consistency_is_achieved before the patch is looked at
+  carried : Bool         -- not patch_initially_empty
+def earlyExitCore (a : ExitAtoms) : Bool := a.required && !(a.achievedBefore && !a.carried)
+
 def cycle {V} [PyVal V] (r : Registry V) (cs : Causes V) (o : Obj) (stopped : List String) :
     List Effect :=
   let hasW := hasHandlers r.watching
@@ -482,14 +498,16 @@ def cycle {V} [PyVal V] (r : Registry V) (cs : Causes V) (o : Obj) (stopped : Li
   let changing₂ := changing₁ && !adding && !removing
   let fin₁ := (if adding then [Effect.addFinalizer] else []) ++
               (if removing then [Effect.removeFinalizer] else [])
-  let handling := if changing₂ then
+  -- a carried patch makes the cycle "inconsistent": exit to PATCHing before handling and release
+  let early := earlyExitCore { required := changing₂, achievedBefore := true, carried := o.carried }
+  let handling := if changing₂ && !early then
       [Effect.handle (if C05.handlerReasons.contains cs.changing.kind.reason
                       then ids (getHandlersChanging r.changing cs.changing []) else [])]
     else []
   -- "Release the object if everything is done, and it is marked for deletion."
-  let release := if releaseCore { deleted := o.deletedEvent, ongoing := o.ongoing, blocked := o.blocked,
-                                  delays := !o.noDelays }
-                 then [Effect.removeFinalizer] else []
-  watching ++ spawning ++ fin₁ ++ handling ++ release
+  let ra : ReleaseAtoms :=
+    { deleted := o.deletedEvent, ongoing := o.ongoing, blocked := o.blocked, delays := !o.noDelays }
+  let release := if !early && releaseCore ra then [Effect.removeFinalizer] else []
+  (if o.carried then [Effect.carried] else []) ++ watching ++ spawning ++ fin₁ ++ handling ++ release
 
 end Kopf.C15
